@@ -222,6 +222,7 @@ def inventory(objs, build_root=None):
     """returns sorted list of {name, obj, section, tls, size}; one entry per (demangled name, object
     file) for internal-linkage symbols, one per name for external/unique/weak ones"""
     entries = {}
+    guards = set()
     mangled_all = []
     per_obj = []
     for o in sorted(objs):
@@ -259,15 +260,20 @@ def inventory(objs, build_root=None):
         rel = re.sub(r"^.*morfuse\.dir/", "", rel)
         for name, sec, size, is_tls in rows:
             d = dem.get(name, name)
+            if d.startswith("guard variable for "):
+                guards.add((d[len("guard variable for "):], rel))
             if SKIP.match(d) or SKIP.match(name):
                 continue
             local = sec in "bds"            # internal linkage: qualify with the object file
             key = d + (" @" + rel if local else "")
             e = entries.get(key)
             if e is None:
-                entries[key] = {"name": key, "section": sec, "tls": is_tls, "size": size, "obj": rel}
+                entries[key] = {"name": key, "section": sec, "tls": is_tls, "size": size, "obj": rel, "bare": d}
             else:
                 e["tls"] = e["tls"] or is_tls
+    for e in entries.values():
+        # C++11 guarded initialisation of a function-local static leaves a guard variable next to it
+        e["guard"] = (e["bare"], e["obj"]) in guards or any(g[0] == e["bare"] for g in guards)
     return [entries[k] for k in sorted(entries)]
 
 
@@ -283,8 +289,14 @@ def classify(inv, data):
     ev = data.get("evidence", {})
     rows, problems = [], []
     seen = set()
+    patterns = [(re.compile(x["regex"]), x) for x in data.get("patterns", [])]
     for e in inv:
         c = table.get(e["name"])
+        if c is None:
+            for rx, x in patterns:
+                if rx.search(e["name"]):
+                    c = x
+                    break
         r = dict(e)
         if c is None:
             r["cls"], r["why"] = "unknown", "not in tools/vlib/conc_globals.json"
@@ -300,6 +312,8 @@ def classify(inv, data):
                 r["cls"], r["why"] = "unknown", "classified thread_local but the object file does not place it in TLS storage"
             if c["class"] != "thread_local" and e["tls"]:
                 r["cls"], r["why"] = "unknown", "placed in TLS storage but classified " + c["class"]
+            if c.get("needs_guard") and not e.get("guard"):
+                r["cls"], r["why"] = "unknown", "reviewed as initialised once under the compiler's guard (magic static) but the object file has no guard variable for it: the initialisation is no longer the guarded one"
             if c["class"] == "guarded" and not c.get("mutex"):
                 problems.append("%s: class guarded without a mutex" % e["name"])
         rows.append(r)
